@@ -22,5 +22,8 @@ def build(tier):
         for (k, sh) in KINDS[:3]:
             obs.append(renders.render_ob("C07.a", k, sh, (0, 2, 4), 2, timeout=2400))
         obs.append(renders.render_ob("C07.a", "function", dict(np=0), (), 1, timeout=400))
+    # long pieces (names, parameters, doc words of 120+ characters): no wrapping / truncation anywhere in the renderers
+    for (k, sh) in (KINDS if not quick else [KINDS[0], KINDS[4], KINDS[10]]):
+        obs.append(renders.render_ob('C07.a', k, sh, (0, 4), 1, timeout=400 if quick else 1800, fill='w' * 120))
     obs.append(c07b.ob_docutils())
     return dict(obligations=obs, explanation="x", assumptions=[])
